@@ -5,24 +5,54 @@ EXTENDS ConnCtrl, Json
 \* i5: an attempt from IP C presenting the peer id of i1; o1,o2: dials to two peers; o3: a second dial to o1's address;
 \* o4: a dial to the listen address announced by the peer of i1.
 \* i6: the peer of i1 reconnecting from the SAME source ip:port (the old socket is dead but may still be recorded).
-ConnsAll == {"i1", "i2", "i3", "i4", "i5", "i6", "o1", "o2", "o3", "o4"}
+\* i7: a third peer behind IP A (with i1, i2: more concurrent attempts from one IP than a per-IP limit of 2 has slots).
+ConnsAll == {"i1", "i2", "i3", "i4", "i5", "i6", "i7", "o1", "o2", "o3", "o4"}
 ConnsQ3 == {"i1", "i6", "i2", "i3"}                  \* reconnect from a recorded remote address, then fill to the limit
 ConnsQ == {"i1", "i2", "i3", "o1", "o2"}            \* the three limits under concurrency
 ConnsQ2 == {"i1", "i5", "o1", "o3", "o4"}           \* address / connecting-list / peer-id refusals
+ConnsF == {"i1", "i2", "i7", "i3"}                  \* inbound attempts from one IP (three ports) and a second IP, run over every address plan
+ConnsF2 == {"i1", "i2", "i7", "i3", "o4"}           \* ... plus a dial to the listen address announced by the peer of i1
 ConnsT == {"i1", "i2", "i3", "i4", "o1", "o2", "o3"}
 ConnsT2 == {"i1", "i2", "i5", "o1", "o3", "o4"}
 
 DirM == [c \in ConnsAll |-> IF c \in {"o1", "o2", "o3", "o4"} THEN "out" ELSE "in"]
-IpM == "i6" :> "A" @@ "i1" :> "A" @@ "i2" :> "A" @@ "i3" :> "B" @@ "i4" :> "B" @@ "i5" :> "C" @@ "o1" :> "D" @@ "o2" :> "E" @@ "o3" :> "D" @@ "o4" :> "A"
-AddrM == "i6" :> "A:1" @@ "i1" :> "A:1" @@ "i2" :> "A:2" @@ "i3" :> "B:1" @@ "i4" :> "B:2" @@ "i5" :> "C:1"
-         @@ "o1" :> "D:9" @@ "o2" :> "E:9" @@ "o3" :> "D:9" @@ "o4" :> "A:9"
-ListenM == "i6" :> "A:9" @@ "i1" :> "A:9" @@ "i2" :> "A:8" @@ "i3" :> "B:9" @@ "i4" :> "B:9" @@ "i5" :> "C:9"
-           @@ "o1" :> "D:9" @@ "o2" :> "E:9" @@ "o3" :> "D:9" @@ "o4" :> "A:9"
-KidM == "i6" :> "k1" @@ "i1" :> "k1" @@ "i2" :> "k2" @@ "i3" :> "k3" @@ "i4" :> "k3" @@ "i5" :> "k1"
+IpM == "i6" :> "A" @@ "i1" :> "A" @@ "i2" :> "A" @@ "i7" :> "A" @@ "i3" :> "B" @@ "i4" :> "B" @@ "i5" :> "C" @@ "o1" :> "D" @@ "o2" :> "E" @@ "o3" :> "D" @@ "o4" :> "A"
+PortM == "i6" :> "1" @@ "i1" :> "1" @@ "i2" :> "2" @@ "i7" :> "3" @@ "i3" :> "1" @@ "i4" :> "2" @@ "i5" :> "1"
+         @@ "o1" :> "9" @@ "o2" :> "9" @@ "o3" :> "9" @@ "o4" :> "9"
+LPortM == "i6" :> "9" @@ "i1" :> "9" @@ "i2" :> "8" @@ "i7" :> "7" @@ "i3" :> "9" @@ "i4" :> "9" @@ "i5" :> "9"
+          @@ "o1" :> "9" @@ "o2" :> "9" @@ "o3" :> "9" @@ "o4" :> "9"
+KidM == "i6" :> "k1" @@ "i1" :> "k1" @@ "i2" :> "k2" @@ "i7" :> "k7" @@ "i3" :> "k3" @@ "i4" :> "k3" @@ "i5" :> "k1"
         @@ "o1" :> "k4" @@ "o2" :> "k5" @@ "o3" :> "k4" @@ "o4" :> "k1"
-IpOfAddrM == "A:1" :> "A" @@ "A:2" :> "A" @@ "A:8" :> "A" @@ "A:9" :> "A" @@ "B:1" :> "B" @@ "B:2" :> "B" @@ "B:9" :> "B"
-             @@ "C:1" :> "C" @@ "C:9" :> "C" @@ "D:9" :> "D" @@ "E:9" :> "E"
+
+(* The address plans: textual realisations of the abstract IPs A..E and of the port ids (1,2,3 = source ports of       *)
+(* inbound sockets, 7,8,9 = listen ports).  v4: plain IPv4.  v6: IPv6 loopback (A), global unicast, link-local with    *)
+(* zone.  v4prefix / v6prefix: the host text of A is a proper prefix of the host text of B and C (and D of E), and     *)
+(* the port text 1 a prefix of 2 and 3, 7 a prefix of 8 and 9 (A is also a textual suffix of D).  mixed: both         *)
+(* families, A (IPv6) and B (IPv4) being the two loopbacks.                                                            *)
+H4(t) == [fam |-> "v4", host |-> t]
+H6(t) == [fam |-> "v6", host |-> t]
+PortsPlain == "1" :> "30001" @@ "2" :> "30002" @@ "3" :> "30003" @@ "7" :> "20337" @@ "8" :> "20339" @@ "9" :> "20338"
+PortsPrefix == "1" :> "3000" @@ "2" :> "30001" @@ "3" :> "30002" @@ "7" :> "2033" @@ "8" :> "20339" @@ "9" :> "20338"
+PlanNames == {"v4", "v6", "v4prefix", "v6prefix", "mixed"}
+PlanM == [p \in PlanNames |->
+    CASE p = "v4" -> [host |-> "A" :> H4("10.0.0.1") @@ "B" :> H4("10.0.0.2") @@ "C" :> H4("10.0.0.3") @@ "D" :> H4("10.0.0.4") @@ "E" :> H4("10.0.0.5"),
+                      port |-> PortsPlain]
+      [] p = "v6" -> [host |-> "A" :> H6("::1") @@ "B" :> H6("2001:db8::1") @@ "C" :> H6("fe80::1%eth0") @@ "D" :> H6("2001:db8::2") @@ "E" :> H6("2001:db8:0:1::2"),
+                      port |-> PortsPlain]
+      [] p = "v4prefix" -> [host |-> "A" :> H4("1.2.3.4") @@ "B" :> H4("1.2.3.40") @@ "C" :> H4("1.2.3.41") @@ "D" :> H4("11.2.3.4") @@ "E" :> H4("11.2.3.40"),
+                            port |-> PortsPrefix]
+      [] p = "v6prefix" -> [host |-> "A" :> H6("::1") @@ "B" :> H6("::10") @@ "C" :> H6("::1:0") @@ "D" :> H6("2001:db8::1") @@ "E" :> H6("2001:db8::1:0"),
+                            port |-> PortsPrefix]
+      [] p = "mixed" -> [host |-> "A" :> H6("::1") @@ "B" :> H4("127.0.0.1") @@ "C" :> H4("10.0.0.3") @@ "D" :> H6("2001:db8::2") @@ "E" :> H4("10.0.0.5"),
+                         port |-> PortsPlain]]
+PlansBase == {"v4"}
+PlansForms == {"v6", "v4prefix", "v6prefix", "mixed"}
+PlansV6 == {"v6"}
+PlansAll == PlanNames
 
 Edge == PrintT(<<"EDGE", ToJson([from |-> State, act |-> act', to |-> State'])>>)
-InitOut == (TLCGet("level") = 1) => PrintT(<<"INIT", ToJson(State)>>)
+\* besides the initial state: the texts of the plan (the harness gives its net.Conn / dial addresses exactly these)
+PlanOut == [plan |-> plan, conns |-> [c \in Conns |-> [addr |-> AddrOf(c), listen |-> ListenOf(c), ip |-> HostOf(c).host, fam |-> HostOf(c).fam,
+                                                     lport |-> PlanTab[plan].port[LPortOf[c]]]]]
+InitOut == (TLCGet("level") = 1) => PrintT(<<"INIT", ToJson(State)>>) /\ PrintT(<<"NOTE", ToJson(PlanOut)>>)
 =============================================================================
